@@ -321,6 +321,9 @@ def run(ctx: common.Ctx):
     sd = ["int64", "float32", "bool", "utf8", "nint64", "nbool", "nutf8", "int8"]
     from .. import setitemtie
     setitemtie.run(ctx, 150 if quick else 3000)
+    # graph-level tie: coordinate grid + index + Expand + ScatterND (Model/TGraphScatter.setitemGraph; Props/C09Scatter.lean)
+    from .. import scattertie
+    scattertie.run(ctx, 200 if quick else 5000, label="setitem", kinds=("setitem", "setitem_mask"))
     sjobs = [(fn, d, m) for fn in list(PURE_CALLS) + list(NO_COPY) for d in sd for m in ("eager", "lazy")]
     rows = tables.pmap(sharing_row, sjobs, chunk=16, strict=True)
     table = []
